@@ -217,8 +217,8 @@ def grouping(sx, B):
            anchors=["polyply.src.minimizer:optimize_geometry", "polyply.src.minimizer:renew_vs", "polyply.src.minimizer:compute_bond",
                     "polyply.src.minimizer:compute_angle"],
            replay=False, must_cover=["optimised", "not optimised"],
-           stubs=["scipy.optimize.minimize (minimizer) -> arbitrary symbolic positions", "linalg_functions.angle (minimizer) -> an arbitrary symbolic angle per call"],
-           outside=["that the optimiser finds a geometry", "improper terms (sign convention: C15.dihedral_sign)"],
+           stubs=["scipy.optimize.minimize (minimizer) -> arbitrary symbolic positions", "angle, dih (minimizer) -> an arbitrary symbolic angle per call (sign convention of dih: C15.dihedral_sign)"],
+           outside=["that the optimiser finds a geometry"],
            bounds={"quick": {}, "thorough": {}})
 def verdict(sx, B):
     """Real optimize_geometry with the optimiser's result replaced by arbitrary symbolic positions: a template reported as
@@ -236,6 +236,10 @@ def verdict(sx, B):
     block.interactions["constraints"] = [Interaction(atoms=["b", "c"], parameters=["1", l2], meta={})]
     block.interactions["angles"] = [Interaction(atoms=["a", "b", "c"], parameters=["2", ang0, "50"], meta={})]
     block.interactions["virtual_sites2"] = [Interaction(atoms=["v", "a", "c"], parameters=["1", "0.5"], meta={})]
+    dih0 = sx.real("improper_target", -180, 180)
+    dih_val = sx.real("improper_value", -180, 180)
+    block.interactions["dihedrals"] = [Interaction(atoms=["a", "b", "c", "v"], parameters=["2", dih0, "100"], meta={}),
+                                       Interaction(atoms=["a", "b", "c", "v"], parameters=["9", "0", "1", "3"], meta={})]
     coords = {nm: np.array([0.1 * i, 0.2, 0.3]) for i, nm in enumerate(("a", "b", "c", "v"))}
 
     def fake_min(fun, x0, method=None, options=None):
@@ -246,8 +250,9 @@ def verdict(sx, B):
     sc = _O()
     sc.optimize = _O()
     sc.optimize.minimize = fake_min
-    with patched(minimizer, scipy=sc, float=lambda x: x, angle=lambda p, q, r: ang_val), patched(vsb, float=lambda x: float(x) if not symx.is_sym(x) else x):
-        ok, out = minimizer.optimize_geometry(block, coords, ["bonds", "constraints", "angles"])
+    with patched(minimizer, scipy=sc, float=lambda x: x, angle=lambda p, q, r: ang_val, dih=lambda p, q, r, t: dih_val), \
+            patched(vsb, float=lambda x: float(x) if not symx.is_sym(x) else x):
+        ok, out = minimizer.optimize_geometry(block, coords, ["bonds", "constraints", "angles", "dihedrals"])
     dab = sum((P["a"][i] - P["b"][i]) ** 2 for i in range(3))
     dbc = sum((P["b"][i] - P["c"][i]) ** 2 for i in range(3))
     for i in range(3):
@@ -261,11 +266,13 @@ def verdict(sx, B):
         sx.claim(sym_and(dab <= (l1 + T) * (l1 + T), sym_or(l1 <= T, dab >= (l1 - T) * (l1 - T))), "optimised: bond within 0.05 nm of its target")
         sx.claim(sym_and(dbc <= (l2 + T) * (l2 + T), sym_or(l2 <= T, dbc >= (l2 - T) * (l2 - T))), "optimised: constraint within 0.05 nm of its target")
         sx.claim(sym_and(ang_val - ang0 <= 5 + 1e-9, ang0 - ang_val <= 5 + 1e-9), "optimised: angle within 5 degrees of its target")
+        sx.claim(sym_and(dih_val - dih0 <= 5 + 1e-9, dih0 - dih_val <= 5 + 1e-9), "optimised: improper dihedral within 5 degrees of its signed target")
     else:
         sx.cover("not optimised")
         sx.claim(sym_or(dab > (l1 + t) * (l1 + t), sym_and(l1 > t, dab < (l1 - t) * (l1 - t)),
                         dbc > (l2 + t) * (l2 + t), sym_and(l2 > t, dbc < (l2 - t) * (l2 - t)),
-                        ang_val - ang0 > 5 - 1e-9, ang0 - ang_val > 5 - 1e-9), "not optimised only if some term misses its tolerance")
+                        ang_val - ang0 > 5 - 1e-9, ang0 - ang_val > 5 - 1e-9, dih_val - dih0 > 5 - 1e-9, dih0 - dih_val > 5 - 1e-9),
+                 "not optimised only if some term misses its tolerance")
 
 
 BUILD_TMPL = """[ template ]
